@@ -17,9 +17,10 @@ def executable_lines(path):
     todo = [code]
     while todo:
         c = todo.pop()
-        for _, _, ln in c.co_lines():
-            if ln:
-                lines.add(ln)
+        if c.co_flags & 0x1:          # function bodies only: module and class bodies ran at import, before monitoring starts
+            for _, _, ln in c.co_lines():
+                if ln and ln != c.co_firstlineno:
+                    lines.add(ln)
         for k in c.co_consts:
             if hasattr(k, 'co_lines'):
                 todo.append(k)
